@@ -38,11 +38,20 @@ def step (abs : Bool) (st : List Comp) (c : Comp) : List Comp :=
 def run (abs : Bool) (st : List Comp) (cs : List Comp) : List Comp := cs.foldl (step abs) st
 
 /-- POSIX: one or two initial slashes are kept, three or more collapse to one. -/
-def initialSlashes : List Char → Nat
-  | '/' :: '/' :: '/' :: _ => 1
-  | '/' :: '/' :: _ => 2
-  | '/' :: _ => 1
-  | _ => 0
+def initialSlashes (p : List Char) : Nat :=
+  match p with
+  | [] => 0
+  | c1 :: r1 =>
+    if c1 = '/' then
+      match r1 with
+      | [] => 1
+      | c2 :: r2 =>
+        if c2 = '/' then
+          match r2 with
+          | [] => 2
+          | c3 :: _ => if c3 = '/' then 1 else 2
+        else 1
+    else 0
 
 /-- `posixpath.normpath` -/
 def normpath (p : List Char) : List Char :=
